@@ -93,6 +93,7 @@ def resolve_overload(qualified_name):
        'extension' : namespace of an extension package that is not installed; nothing to compare with
        'undefined' : the installed PyTorch does not define this operator / overload
     """
+    import importlib
     import importlib.util
 
     import torch
@@ -101,8 +102,13 @@ def resolve_overload(qualified_name):
     if namespace in PY_NAMESPACES:
         tgt = getattr(PY_NAMESPACES[namespace], op_name, None)
         return ("python", tgt) if tgt is not None else ("undefined", f"no {namespace}.{op_name} builtin")
-    if namespace in EXTENSION_NAMESPACES and importlib.util.find_spec(EXTENSION_NAMESPACES[namespace]) is None:
-        return "extension", None
+    if namespace in EXTENSION_NAMESPACES:
+        if importlib.util.find_spec(EXTENSION_NAMESPACES[namespace]) is None:
+            return "extension", None
+        try:  # importing the package registers its operators
+            importlib.import_module(EXTENSION_NAMESPACES[namespace])
+        except Exception:
+            return "extension", None
     try:
         packet = getattr(getattr(torch.ops, namespace), op_name)
     except AttributeError:
